@@ -37,6 +37,8 @@ type c20case struct {
 	anyDefs bool
 	// noPermute: the case is about one particular argument order (colliding names: §3.11)
 	noPermute bool
+	// defOut: how the default output is spelled on the command line ("" = defpkg/default.go)
+	defOut string
 }
 
 const c20Mod = "example.com/mod"
@@ -98,6 +100,17 @@ func genC20Case(ctx *Ctx, i int) *c20case {
 			}
 		}
 		c.maps[f.Name] = m
+	}
+	if layout == 0 && (i/4)%3 == 1 {
+		// the default output spelled in a way that is not its shortest form, and the first schema with an id mapped to
+		// that very file with that very spelling: one file, written once, holding everything
+		c.defOut = []string{"./defpkg/default.go", "defpkg//default.go", "x/../defpkg/default.go", "defpkg/./default.go"}[(i/12)%4]
+		for _, f := range fs.Files {
+			if f.ID != "" {
+				c.flags = append(c.flags, "--schema-output", f.ID+"="+c.defOut)
+				break
+			}
+		}
 	}
 	// Go forbids import cycles: drop cross-file references that would close a cycle between the mapped packages
 	pkgOf := map[*sg.Schema]string{}
@@ -188,7 +201,11 @@ func (c *c20case) inv(env *batch.Env, order []int, extra []*sg.SchemaFile, extra
 	for _, f := range c.fs.Files {
 		files = append(files, batch.File{Path: filepath.Join("schemas", f.Path), Data: f.Data()})
 	}
-	args := append([]string{"-p", c20Mod + "/defpkg", "-o", "defpkg/default.go"}, c.flags...)
+	defOut := "defpkg/default.go"
+	if c.defOut != "" {
+		defOut = c.defOut
+	}
+	args := append([]string{"-p", c20Mod + "/defpkg", "-o", defOut}, c.flags...)
 	args = append(args, extraFlags...)
 	var inputs []string
 	for _, k := range order {
